@@ -132,7 +132,9 @@ func RunBlocks(base string, res *RunResult, blocks []Block, hk *Hooks) {
 			n, err := c.Reopen(nd, true)
 			if err != nil {
 				res.Err = "reopen: " + err.Error()
-				c.Dead, c.DeadReason = true, "reopen failed: "+err.Error()
+				if _, harness := err.(*SnapshotError); !harness {
+					c.Dead, c.DeadReason = true, "reopen failed: "+err.Error()
+				}
 				return
 			}
 			n.Log = c.Log
